@@ -320,10 +320,13 @@ def h_userop(env, opts, patt, n, kind):
                 words = [((0, "Z"),), ((0, "X"), (1, "Y")), ((1, "Z"), (n - 1, "Z")), ()]
                 for i, w in enumerate(words):
                     op.terms[w] = env.real(f"u{i}", lo=-2, hi=2)
+                s.energy_estimation(list(th))                                   # E(th) ...
                 val = s.operator_expectation(op, th)
             else:
+                s.energy_estimation(list(th))
                 val = s.operator_expectation(FermionOperator(((0, 1), (0, 0))) + 2 * FermionOperator(((3, 1), (3, 0))), th)
-            e = s.energy_estimation(th)
+            s.operator_expectation("Sz", [np.pi / 2 * (2 * i + 1) for i in range(len(th))])    # ... something else re-parametrises the ansatz (concrete point) ...
+            e = s.energy_estimation(list(th))                                   # ... and E(th) is asked again
             st = full_circuit_state(s, n)
     finally:
         c02._restore()
@@ -385,6 +388,34 @@ def h_simulate(env, opts, n, projective=False):
     env.check_eq(e_opt, R.expectation(st, n, dict(s.qubit_hamiltonian.terms)), "simulate(): optimal_energy == <H> of the state prepared by optimal_circuit")
     env.check_eq(e_opt, e_again, "simulate(): optimal_energy == energy_estimation(optimal_var_params)")
     env.check_vec_eq(list(s.optimal_var_params), list(th), "simulate(): optimal_var_params are the optimiser's")
+
+
+def h_two_solvers(env, ansatz_name):
+    """two solvers built from the same BuiltInAnsatze member in one process (a potential-energy scan): after both have run
+    simulate() - with a stand-in optimiser that evaluates one symbolic point each - the FIRST solver's optimal_circuit still
+    prepares the state its optimal_energy refers to"""
+    from tangelo.algorithms.variational import BuiltInAnsatze
+    A = getattr(BuiltInAnsatze, ansatz_name)
+    o = dict(molecule=mol("H2"), qubit_mapping="jw", up_then_down=True, ansatz=A)
+    try:
+        s1 = make_solver(env, dict(o))
+        k = s1.ansatz.n_var_params
+        t1 = vec(env, "th", ("ss" + "p" * k)[:k])
+        t2 = [x + 0.5 for x in t1]
+        s1.optimizer = lambda func, x0: (func(list(t1)), list(t1))
+        with sym_alloc(env):
+            e1 = s1.simulate()
+        s2 = make_solver(env, dict(o))
+        s2.optimizer = lambda func, x0: (func(list(t2)), list(t2))
+        with sym_alloc(env):
+            e2 = s2.simulate()
+            st1 = R.run_gates(s1.optimal_circuit._gates, 4)
+            st2 = R.run_gates(s2.optimal_circuit._gates, 4)
+    finally:
+        c02._restore()
+    env.check_eq(e1, R.expectation(st1, 4, dict(s1.qubit_hamiltonian.terms)),
+                 f"{ansatz_name}: the first solver's optimal_circuit still prepares the state of its optimal_energy after a second solver ran")
+    env.check_eq(e2, R.expectation(st2, 4, dict(s2.qubit_hamiltonian.terms)), f"{ansatz_name}: second solver's optimal_energy == <H> of its optimal_circuit")
 
 
 def h_refstate(env, patt):
@@ -502,5 +533,7 @@ def shapes(tier, seed):
     for key in ("H2",) + (("H4",) if tier == "thorough" else ()):
         for which in ("N", "Sz", "S^2"):
             out.append(Shape(f"symmetry/{which}/{key}/hcb-puccd", h_symmetry_hcb, dict(key=key, which=which), modules=MODS, max_paths=64))
+    for an in ("UCC1", "UCCSD"):            # (UCC3: the exact comparison of its 3-parameter state exceeds the quick budget)
+        out.append(Shape(f"two-solvers/{an}", h_two_solvers, dict(ansatz_name=an), modules=MODS, max_paths=64))
     out.append(Shape("refstate/uccsd/H2/jw", h_refstate, dict(patt="ss"), modules=MODS, max_paths=64))
     return out
